@@ -316,16 +316,18 @@ def expansion_oracle(run, chk, select=lambda cs: True):
         for i in part:
             o = run.outcomes[i]
             outt = o.get("stmts_term") if o.get("unroll") == "ok" and o.get("stmts_term") else None
-            counts = "(%d, %d)%%Z" % (o.get("nq") if isinstance(o.get("nq"), int) else -1, o.get("nc") if isinstance(o.get("nc"), int) else -1)
+            counts = "(%d, %d, %d)%%Z" % (o.get("nq") if isinstance(o.get("nq"), int) else -1, o.get("nc") if isinstance(o.get("nc"), int) else -1,
+                                             o.get("depth") if isinstance(o.get("depth"), int) else -1)
             terms.append("(%s, %s, %s, %s)" % (o["prog_term"], "Some %s" % outt if outt else "None", counts, "true" if o.get("validate") == "ok" else "false"))
         with open(f, "w") as fh:
-            fh.write(langcorr.HEADER.replace("Unroll Corr", "Unroll FixProofs LoopProofs BroadcastProofs GateDefProofs"))
-            fh.write("Definition code (c : list stmt * option (list stmt) * (Z * Z) * bool) : nat :=\n"
-                     "  let '(p, out, (nq, nc), validated) := c in\n"
-                     "  match gexpand env0 [] p, out with\n"
+            fh.write(langcorr.HEADER.replace("Unroll Corr", "Unroll Depth DepthModel FixProofs LoopProofs BroadcastProofs GateDefProofs"))
+            fh.write("Definition code (c : list stmt * option (list stmt) * (Z * Z * Z) * bool) : nat :=\n"
+                     "  let '(p, out, (nq, nc, dp), validated) := c in\n"
+                     "  match gjudge p, out with\n"
                      "  | None, _ => 0\n"
-                     "  | Some (q, _), Some o => if negb (list_eqb stmt_eqb q o) then 2 else if negb validated then 5\n"
-                     "                           else if (Z.eqb (total_qubits q) nq && Z.eqb (total_clbits q) nc)%bool then 1 else 4\n"
+                     "  | Some (q, evs), Some o => if negb (list_eqb stmt_eqb q o) then 2 else if negb validated then 5\n"
+                     "                           else if negb (Z.eqb (total_qubits q) nq && Z.eqb (total_clbits q) nc)%bool then 4\n"
+                     "                           else if Z.eqb (total_depth rsrc_eqb (List.concat evs) evs) dp then 1 else 6\n"
                      "  | Some _, None => 3 end.\n")
             fh.write("Eval vm_compute in (map code\n [%s]).\n" % ";\n  ".join(terms))
         procs.append((part, subprocess.Popen(["timeout", "600", "coqc", "-Q", common.COQ, "Verif", f], stdout=subprocess.PIPE, stderr=subprocess.PIPE, text=True)))
@@ -348,7 +350,8 @@ def expansion_oracle(run, chk, select=lambda cs: True):
                 chk.violation("expansion_theorem_%d" % bad, {"kind": "program", "source": run.cases[i]["src"], "family": run.cases[i]["family"],
                               "what": "the program is inside the judgement of theorem programs_with_gate_definitions_unroll_to_their_expansion (gate calls replaced by the instantiated body, "
                                       "loops by their body at each value, whole-register operations by one operation per bit, in order) but the implementation " + {2: "emits different statements", 3: "rejects it: %s" % o.get("unroll"), 4: "reports other qubit / bit counts than the register sizes of the expansion",
-                                                                                                  5: "rejects it in validate(): %s" % o.get("validate")}.get(v, "differs"),
+                                                                                                  5: "rejects it in validate(): %s" % o.get("validate"),
+                                                                                                  6: "reports a depth other than the recurrence over the judgement's events"}.get(v, "differs"),
                               "implementation": {k2: o.get(k2) for k2 in ("validate", "unroll", "nq", "nc", "depth")}})
     return tally
 
